@@ -63,6 +63,18 @@ extern "C" void h_sets(void) {
     }
     CHECK((a == b) == (ta == tb && ((sa ? 1 : 0) == (sb ? 1 : 0)) && ma == mb) || (sa != sb));   // equality is on truth + set
 }
+// chains of three operands: (a AND b) AND c and (a OR b) OR c; an EMPTY running intersection must stay empty
+extern "C" void h_sets3(void) {
+    unsigned ma, mb, mc; const bool sb = nondet_bool();
+    Result a = mk(true, true, 2, ma), b = mk(true, sb, 2, mb), c = mk(true, true, 2, mc);
+    Result r = a; r.makeSetIntersection(b); r.makeSetIntersection(c);
+    CHECK(r.conditionSatisfied());
+    check_range(r, sb ? (ma & mb & mc) : (ma & mc));
+    Result u = a; u.makeSetUnion(b); u.makeSetUnion(c);
+    check_range(u, ma | mb | mc);
+    Result l = b; l.makeSetIntersection(a); l.makeSetIntersection(c);      // scalar (set-less) operand first
+    check_range(l, sb ? (ma & mb & mc) : (ma & mc));
+}
 #ifndef CMPOP
 #define CMPOP 4
 #endif
